@@ -386,6 +386,48 @@ pub fn run(ctx: &Ctx, st: &mut Stats) {
             st.sample(|| json!(c));
         }
     }
+    // seeded composite documents in BOTH shapes serde accepts for a struct: the object form and the positional
+    // (array) form, nested either way; a document is acceptable iff every member is in its range
+    {
+        let nc = ctx.quota(60_000, 3_000_000);
+        let mut rc = Rng::new(ctx.seed, 1803, ctx.shard);
+        let member = |rc: &mut Rng, lo: f64, hi: f64| -> (f64, bool) {
+            let x = match rc.int(0, 11) {
+                0 => hi + (hi - lo) * rc.range(1e-12, 2.0),
+                1 => lo - (hi - lo) * rc.range(1e-12, 2.0),
+                2 => ulp_up(hi),
+                3 => ulp_down(lo),
+                4 => hi,
+                5 => lo,
+                6 => 1e9 * rc.sign(),
+                _ => rc.range(lo, hi),
+            };
+            (x, x.is_finite() && x >= lo && x <= hi)
+        };
+        for _ in 0..nc {
+            let (la, a1) = member(&mut rc, -90.0, 90.0);
+            let (lo, a2) = member(&mut rc, -180.0, 180.0);
+            let (el, a3) = member(&mut rc, -420.0, 8848.0);
+            let (g, a4) = member(&mut rc, -12.0, 12.0);
+            let (pr, a5) = member(&mut rc, 100.0, 1050.0);
+            let (te, a6) = member(&mut rc, -90.0, 57.0);
+            let coords_obj = format!("{{\"latitude\":{la:?},\"longitude\":{lo:?},\"elevation\":{el:?}}}");
+            let coords_arr = format!("[{la:?},{lo:?},{el:?}]");
+            let (kind, ok, doc) = match rc.int(0, 7) {
+                0 => ("Coordinates", a1 && a2 && a3, coords_obj),
+                1 | 2 => ("Coordinates", a1 && a2 && a3, coords_arr),
+                3 => ("Location", a1 && a2 && a3 && a4, format!("{{\"coords\":{coords_arr},\"gmt\":{g:?}}}")),
+                4 => ("Location", a1 && a2 && a3 && a4, format!("[{coords_arr},{g:?}]")),
+                5 => ("Location", a1 && a2 && a3 && a4, format!("[{coords_obj},{g:?}]")),
+                6 => ("Weather", a5 && a6, format!("[{pr:?},{te:?}]")),
+                _ => ("Weather", a5 && a6, format!("{{\"pressure\":{pr:?},\"temperature\":{te:?}}}")),
+            };
+            let c = Case { ty: kind.into(), route: "composite".into(), value: None, text: Some(format!("{}\t{}", if ok { "A" } else { "R" }, doc)) };
+            check(ctx, st, &c);
+            st.nontrivial_key(hash64(&doc));
+        }
+        st.add("seeded_composite_documents(object and positional forms)", nc);
+    }
     // every "human" value: all decimals with at most two places inside each range (elevation: the hundredths that
     // look like minutes or common fractions, for every whole metre), as a number and as the text a user would type
     // ("5.30", "-4.3"): what goes in must come out
